@@ -6,6 +6,7 @@ replace github.com/brimdata/super => /repo
 
 require (
 	github.com/brimdata/super v0.0.0-00010101000000-000000000000
+	github.com/pierrec/lz4/v4 v4.1.18
 	github.com/segmentio/ksuid v1.0.2
 )
 
@@ -30,7 +31,6 @@ require (
 	github.com/klauspost/cpuid/v2 v2.2.5 // indirect
 	github.com/kr/text v0.2.0 // indirect
 	github.com/lestrrat-go/strftime v1.0.6 // indirect
-	github.com/pierrec/lz4/v4 v4.1.18 // indirect
 	github.com/pkg/errors v0.9.1 // indirect
 	github.com/x448/float16 v0.8.4 // indirect
 	github.com/zeebo/xxh3 v1.0.2 // indirect
